@@ -218,6 +218,21 @@ namespace PConn
 
 abbrev Id := List UInt8
 
+/-- What an EXECUTE / a BATCH entry carries for one prepared statement, as the scripted server observes it, and
+    what a PREPARE answer hands out: the prepared id TOGETHER WITH the bind metadata, seen as the byte widths
+    of the bound values (`sig`: the widths the answer's column types prescribe / the widths of the values in the
+    frame, i.e. the metadata the driver encoded them with). In the code both travel in one `*preparedStatment`
+    (`info.id`, `info.request.columns[i].TypeInfo`), so the machines below treat the pair as ONE opaque `Id`;
+    the driver (Driver/C14.lean) builds the token from the two fields of the `P` / `X` events. One length byte,
+    the id, the widths: injective for ids shorter than 256 bytes (a CQL [short bytes] id of the scripted
+    server is 3..12 bytes) - `C14_token_injective`. -/
+def token (id sig : List UInt8) : Id := UInt8.ofNat id.length :: (id ++ sig)
+
+/-- the two fields of a token (for printing) -/
+def untoken : Id → List UInt8 × List UInt8
+  | [] => ([], [])
+  | n :: r => (r.take n.toNat, r.drop n.toNat)
+
 /-- the server's answer to a PREPARE: `none` = ERROR frame, `some (id, ncols)` = RESULT/Prepared with
     that id and that many bind columns -/
 abbrev PAns := Option (Id × Nat)
@@ -240,6 +255,8 @@ inductive Outcome
 
 inductive Ev (κ : Type)
   | start (c : Nat) (batch : Bool) (es : List (κ × Nat))   -- call c begins: entries (key, number of bound values)
+      -- (the harness writes 1000 + n for a list of n values one of which no column type accepts: a value list whose
+      --  'number' equals no column count - Marshal fails where the count check would: value error, nothing sent)
   | prep (f : Nat) (k : κ) (r : PAns)                      -- the server received PREPARE number f for key k, answers r
   | rm (k : κ) (f : Nat)                                   -- flight f left the cache (OnEvicted)
   | exec (c : Nat) (ids : List Id) (a : XAns)              -- the server received call c's EXECUTE/BATCH with these ids, answers a
@@ -703,3 +720,148 @@ def rmCount (k : κ) (tr : List (Ev κ)) : Nat :=
   tr.countP fun | .rm k' _ => decide (k' = k) | _ => false
 
 end Obs
+
+/-!
+## The connection-level machine with the REAL cache (`PLru`)
+
+`PConn` keeps the statement cache as a finite map and lets the environment purge any entry at any time. `PLru` is the
+same machine with `internal/lru` (Model/LRU.lean) as the cache: there is NO environment eviction - an entry is
+purged exactly when `lru.Cache.Add` inside a missing lookup's critical section finds the cache over its capacity
+(the least recently used entry goes, possibly one whose PREPARE is still in flight), a hit promotes the entry
+(`lru.Get` in execIfMissing), evictPreparedID promotes the entry it inspects (`lru.Get`) and `lru.Remove`s it if
+it decides to, and a failing flight `lru.Remove`s its key. Callers, flights' goroutines, the server and the
+caller contexts interleave exactly as in `PConn`.
+
+Proofs/C14ConnLRU.lean: every schedule of `PLru` is a schedule of `PConn` with the LRU's purges as `evict` actions
+(same trace - so `Obs` accepts it and every theorem about `PConn` schedules holds for it), the two caches hold
+the same entries at every point, and the cache never exceeds its capacity in any interleaving.
+-/
+namespace PLru
+open PConn
+
+structure State (κ : Type) where
+  p   : PConn.State κ
+  lru : LRU.Cache κ Nat
+
+/-- the actions of `PConn` without the environment's `evict` -/
+inductive Action (κ : Type)
+  | call (batch : Bool) (es : List (κ × Nat))
+  | lookup (c : Nat)
+  | spawn (c : Nat)
+  | srvPrepare (f : Nat) (r : PAns)
+  | complete (f : Nat)
+  | observe (c : Nat) (a : XAns)
+  | finish (c : Nat)
+  | cancel (c : Nat)
+  | abandon (c : Nat)
+  | abandonLate (c : Nat)
+  | srvLate (c : Nat) (a : XAns)
+
+variable {κ : Type} [DecidableEq κ]
+
+def init (cap : Int) : State κ := { p := PConn.init, lru := LRU.new cap }
+
+/-- the same action of the finite-map machine -/
+def Action.toP : Action κ → PConn.Action κ
+  | .call b es => .call b es
+  | .lookup c => .lookup c
+  | .spawn c => .spawn c
+  | .srvPrepare f r => .srvPrepare f r
+  | .complete f => .complete f
+  | .observe c a => .observe c a
+  | .finish c => .finish c
+  | .cancel c => .cancel c
+  | .abandon c => .abandon c
+  | .abandonLate c => .abandonLate c
+  | .srvLate c a => .srvLate c a
+
+/-- whatever left the finite-map cache by `lru.Remove` (failing flight, evictPreparedID) leaves the LRU -/
+def syncRm (l : LRU.Cache κ Nat) : List (Ev κ) → LRU.Cache κ Nat
+  | [] => l
+  | .rm k _ :: es => syncRm (l.remove k).2.1 es
+  | _ :: es => syncRm l es
+
+/-- the LRU purged these keys: `PConn`'s action `evict`, once per key -/
+def evictAll (p : PConn.State κ) : List κ → Option (PConn.State κ × List (Ev κ))
+  | [] => some (p, [])
+  | k :: ks =>
+    match PConn.step p (.evict k) with
+    | none => none
+    | some (p1, e1) =>
+      match evictAll p1 ks with
+      | none => none
+      | some (p2, e2) => some (p2, e1 ++ e2)
+
+/-- the key the next `prepareStatement` of call c looks up -/
+def lookupKey (p : PConn.State κ) (c : Nat) : Option κ :=
+  match p.callers[c]? with
+  | none => none
+  | some cl => (cl.entries[cl.got.length]?).map (·.1)
+
+/-- the key evictPreparedID inspects when call c acts on an UNPREPARED answer -/
+def unprepLookup (p : PConn.State κ) (c : Nat) : Option κ :=
+  match p.callers[c]? with
+  | none => none
+  | some cl =>
+    match cl.pc with
+    | .answered (.unprep id) => unprepKey p cl id
+    | _ => none
+
+/-- an action that touches the cache only through `lru.Remove` (or not at all) -/
+def stepOther (s : State κ) (a : PConn.Action κ) : Option (State κ × List (Ev κ)) :=
+  match PConn.step s.p a with
+  | none => none
+  | some (p1, e1) => some ({ p := p1, lru := syncRm s.lru e1 }, e1)
+
+/-- execIfMissing: `lru.Get` (a hit promotes) or, in the same critical section, `lru.Add` of the new flight (a full
+    cache purges its least recently used entry) -/
+def stepLookup (s : State κ) (c : Nat) : Option (State κ × List (Ev κ)) :=
+  match lookupKey s.p c with
+  | none => none
+  | some k =>
+    match s.lru.get k with
+    | (some _, l') =>
+      match PConn.step s.p (.lookup c) with
+      | none => none
+      | some (p1, e1) => some ({ p := p1, lru := l' }, e1)
+    | (none, _) =>
+      match PConn.step s.p (.lookup c) with
+      | none => none
+      | some (p1, e1) =>
+        match evictAll p1 ((s.lru.add k s.p.flights.length).2.map (·.1)) with
+        | none => none
+        | some (p2, e2) => some ({ p := p2, lru := (s.lru.add k s.p.flights.length).1 }, e1 ++ e2)
+
+/-- the answer to the frame; on UNPREPARED evictPreparedID: `lru.Get` (promotes) before it decides -/
+def stepFinish (s : State κ) (c : Nat) : Option (State κ × List (Ev κ)) :=
+  match PConn.step s.p (.finish c) with
+  | none => none
+  | some (p1, e1) =>
+    some ({ p := p1, lru := syncRm (match unprepLookup s.p c with
+                                    | some k => (s.lru.get k).2
+                                    | none => s.lru) e1 }, e1)
+
+def step (s : State κ) : Action κ → Option (State κ × List (Ev κ))
+  | .lookup c => stepLookup s c
+  | .finish c => stepFinish s c
+  | .call b es => stepOther s (.call b es)
+  | .spawn c => stepOther s (.spawn c)
+  | .srvPrepare f r => stepOther s (.srvPrepare f r)
+  | .complete f => stepOther s (.complete f)
+  | .observe c a => stepOther s (.observe c a)
+  | .cancel c => stepOther s (.cancel c)
+  | .abandon c => stepOther s (.abandon c)
+  | .abandonLate c => stepOther s (.abandonLate c)
+  | .srvLate c a => stepOther s (.srvLate c a)
+
+def run (s : State κ) : List (Action κ) → Option (State κ × List (Ev κ))
+  | [] => some (s, [])
+  | a :: as =>
+    match step s a with
+    | none => none
+    | some (s', evs) =>
+      match run s' as with
+      | none => none
+      | some (s'', evs') => some (s'', evs ++ evs')
+
+end PLru
